@@ -177,19 +177,22 @@ func newC08World() *c08World {
 	stores := map[string]*world.Store{"people": w.k.people, "mgr": w.k.mgr, "prof": w.k.prof, "orgs": w.k.orgs, "pets": w.k.pets}
 	syncT := []boltz.EntityEventType{boltz.EntityCreated, boltz.EntityUpdated, boltz.EntityDeleted}
 	asyncT := []boltz.EntityEventType{boltz.EntityCreatedAsync, boltz.EntityUpdatedAsync, boltz.EntityDeletedAsync}
+	// the optional further change types are passed as a spread slice the caller built once and re-uses (empty, with
+	// spare capacity): a registration must not keep or write into the caller's slice
+	spare := make([]boltz.EntityEventType, 0, 4)
 	for name, s := range stores {
 		name, s := name, s
 		for i := range syncT {
 			st, at := syncT[i], asyncT[i]
 			// one registration per change type, so every registration is "registered for that change type" only
-			s.AddEntityEventListener(&typedListener{w, name, "EntityEventListener", st}, st)
-			s.AddEntityEventListener(&typedListener{w, name, "EntityEventListener/async", at}, at)
-			s.AddEntityEventListenerF(func(e *world.Rec) { w.rec(name, "EntityEventListenerF", st, e.Id, recSummary(name, e)) }, st)
-			s.AddEntityEventListenerF(func(e *world.Rec) { w.rec(name, "EntityEventListenerF/async", at, e.Id, recSummary(name, e)) }, at)
-			s.AddListener(func(e boltz.Entity) { w.rec(name, "Listener", st, e.GetId(), recSummary(name, e)) }, st)
-			s.AddListener(func(e boltz.Entity) { w.rec(name, "Listener/async", at, e.GetId(), recSummary(name, e)) }, at)
-			s.AddEntityIdListener(func(id string) { w.rec(name, "EntityIdListener", st, id, "") }, st)
-			s.AddEntityIdListener(func(id string) { w.rec(name, "EntityIdListener/async", at, id, "") }, at)
+			s.AddEntityEventListener(&typedListener{w, name, "EntityEventListener", st}, st, spare...)
+			s.AddEntityEventListener(&typedListener{w, name, "EntityEventListener/async", at}, at, spare...)
+			s.AddEntityEventListenerF(func(e *world.Rec) { w.rec(name, "EntityEventListenerF", st, e.Id, recSummary(name, e)) }, st, spare...)
+			s.AddEntityEventListenerF(func(e *world.Rec) { w.rec(name, "EntityEventListenerF/async", at, e.Id, recSummary(name, e)) }, at, spare...)
+			s.AddListener(func(e boltz.Entity) { w.rec(name, "Listener", st, e.GetId(), recSummary(name, e)) }, st, spare...)
+			s.AddListener(func(e boltz.Entity) { w.rec(name, "Listener/async", at, e.GetId(), recSummary(name, e)) }, at, spare...)
+			s.AddEntityIdListener(func(id string) { w.rec(name, "EntityIdListener", st, id, "") }, st, spare...)
+			s.AddEntityIdListener(func(id string) { w.rec(name, "EntityIdListener/async", at, id, "") }, at, spare...)
 		}
 		s.AddListener(func(e boltz.Entity) { w.recAny(name, "Listener/all-types-at-once", e.GetId()) }, boltz.EntityCreated, boltz.EntityUpdated, boltz.EntityDeleted)
 		s.AddEntityIdListener(func(id string) { w.recAny(name, "EntityIdListener/all-types-at-once", id) }, boltz.EntityDeletedAsync, boltz.EntityCreatedAsync, boltz.EntityUpdatedAsync)
